@@ -30,6 +30,55 @@ PROPS['C16'] = {
     'trust': ['hash-table key model for String keys looked up through &str (string_of axioms)', 'Display/to_string of String and Cow<str> prints the content', 'closure ensures annotations inserted into resolve_tag (insert-only, logged as R7)'],
 }
 
+PARSER_TRUST = ['A4 the scanner is an arbitrary deterministic token source: Scanner::future() is an uninterpreted finite token sequence and Parser::scan_next_token (external_body, 8 lines, no panic site) is assumed to deliver its head / fail when it is empty; hence results hold for every token stream']
+
+PROPS['C01'] = {
+    'units': ['parser'],
+    'level': 'proof',
+    'claim': 'Panic-freedom and termination as verifier-generated obligations on the real code: every unwrap/expect/unreachable!/assert_eq!/overflow site of parser.rs (pop_state, fetch_token, the four unreachable!() of parse_node, State::End arm, load_node unreachable!, load_document assert_eq!) is discharged from the state-stack invariant and the event grammar; the token loops of document_start and parser_process_directives carry decreases clauses. All token streams, no bound.',
+    'technique': 'Verus: safety obligations (unwrap, unreachable!, assert_eq!, arithmetic) discharged from contracts and invariants; decreases clauses for termination',
+    'not_decided': [
+        'linear work bound (no cost model in the verifier)',
+        'termination of the push-interface loops/recursion (load, load_node, load_sequence, load_mapping carry exec_allows_no_decreases_clause; partial correctness and panic-freedom are proved)',
+        'scanner, Input implementations and loader functions not yet under contract are listed as external_body in the evidence; a panic inside them would not be seen',
+    ],
+    'trust': PARSER_TRUST,
+}
+PROPS['C06'] = {
+    'units': ['parser'],
+    'level': 'proof',
+    'claim': 'Rejection mechanisms as "pattern ==> r is Err" postconditions over the upcoming token kinds (the parser table): wrong/missing flow closer or comma, EOF inside a flow collection, block entry/key not continuing its collection, second root node, directives without ---, repeated %YAML, directive after an implicit document end, repeated %TAG handle, undeclared named handle. Proved for all token streams.',
+    'technique': 'Verus: per-state-function postconditions of the form (next token kind not in allowed set) ==> Err',
+    'not_decided': [
+        'that a character-level damage operator produces the token pattern on the left of each clause (needs the functional spec of the scanner, see C03)',
+        'scanner-level rejections (unterminated quote, tabs, escapes, content after ...) belong to the scanner unit tiers',
+        'alias without anchor: parse_node returns Err when the lookup fails, but the clause is not yet stated separately',
+    ],
+    'trust': PARSER_TRUST,
+}
+PROPS['C15'] = {
+    'units': ['parser'],
+    'level': 'proof',
+    'claim': 'Reset post-states of the document-boundary functions: document_end leaves an empty %TAG table unless keep_tags (and the same table with it); parser_process_directives leaves the table untouched when a document has no directives and otherwise installs exactly this document\'s table; load clears the anchor table before each document (anchors_inv re-established from empty); after DocumentEnd the control state is abs == Between with an empty state stack (from the C02 contracts).',
+    'technique': 'Verus: postconditions on document_end / parser_process_directives / load stating the reset state',
+    'not_decided': [
+        'the concatenation theorem A ++ "..." ++ B itself (a two-run statement) is not mechanised',
+        'scanner-side resets (fetch_document_indicator: indent, simple keys) are in the scanner unit tiers',
+    ],
+    'trust': PARSER_TRUST,
+}
+PROPS['C17'] = {
+    'units': ['parser'],
+    'level': 'proof',
+    'claim': 'Cache discipline of peek / next_event / next_event_impl as frame-exact postconditions: peek-hit changes nothing and shows the cached pair; peek-miss performs exactly one parse and caches an Ok result, passes an Err on uncached; next-hit hands over the cached pair and leaves the core untouched; next-miss is exactly one parse; the fuse is set iff StreamEnd is handed out and afterwards both return None without changing anything. load / load_document / load_node / load_sequence / load_mapping pull through the same next_event_impl and are verified to follow the event grammar.',
+    'technique': 'Verus: frame-exact postconditions (same_core / parse_post) on the cache functions',
+    'not_decided': [
+        'event-for-event equality of the push and pull streams as a trace theorem (needs a ghost log of delivered events; grammar conformance of both is proved)',
+        'determinism of parse (A4) is assumed for the history lemma',
+    ],
+    'trust': PARSER_TRUST,
+}
+
 
 def trusted_base(pid):
     return COMMON_TRUST + PROPS[pid].get('trust', [])
